@@ -503,7 +503,13 @@ std::unique_ptr<NifFile> cv_build(const Case& c) {
 			// at an even position). The generated triangles are the ground truth for the strip decoder.
 			auto data = std::make_unique<NiTriStripsData>();
 			data->Create(hdr.GetVersion(), &verts, nullptr, has('u') ? &uvs : nullptr, has('n') ? &norms : nullptr);
-			g_genTris[name] = tris;
+			{
+				// shapes may share a name: the key is name#k for the k-th strip shape of that name
+				int k = 0;
+				while (g_genTris.count(name + "#" + std::to_string(k)))
+					++k;
+				g_genTris[name + "#" + std::to_string(k)] = tris;
+			}
 			if (has('T')) {
 				std::vector<uint16_t> pts;
 				for (auto& t : tris) {
